@@ -111,4 +111,43 @@ theorem round_midnight (u : TUnit) (d : Int) :
 
 example : midnight 0 = 0 ∧ midnight (-1) = -86400000000 ∧ Timestamp.trunc .hour (midnight 5) = .ok (midnight 5) := by decide
 
+/-- DIFFERENCES: the difference of two dates taken through their midnight timestamps is the day difference in
+    microseconds (so `Date::sub_date`, `Date::sub_timestamp`, `Timestamp::sub_date` describe the same distance). -/
+theorem sub_midnight (a b : Int) :
+    Timestamp.subTimestamp (midnight a) (midnight b) = Date.subDate a b * 86400000000 ∧
+    Timestamp.subDate (midnight a) b = Date.subDate a b * 86400000000 := by
+  unfold Timestamp.subDate Timestamp.subTimestamp Date.subDate midnight Timestamp.new USECONDS_PER_DAY
+  constructor <;> omega
+
+/-- WHOLE DAYS: adding `k` days to a date = adding the interval of `k` days to its midnight timestamp, errors included
+    (for every valid date and every i32 `k`). -/
+theorem addDays_midnight (d k : Int) (hd : isValidDate d) (_hk : fitsI32 k) :
+    (Date.addDays d k).map midnight = Timestamp.addIntervalDt (midnight d) (k * 86400000000) := by
+  have hv := (isValidDate_iff d).1 hd
+  have em : midnight d + k * 86400000000 = (d + k) * 86400000000 := by
+    unfold midnight Timestamp.new USECONDS_PER_DAY; omega
+  by_cases hr : isValidDate (d + k)
+  · -- the exact result is a date: both paths return it
+    have hr' := (isValidDate_iff _).1 hr
+    have h1 : fitsI32 (d + k) := by unfold fitsI32 I32_MIN I32_MAX; omega
+    have h2 : fitsI64 (midnight d + k * 86400000000) := by rw [em]; unfold fitsI64 I64_MIN I64_MAX; omega
+    have h3 : isValidTimestamp (midnight d + k * 86400000000) := by rw [em, isValidTimestamp_iff]; omega
+    simp only [Date.addDays, Timestamp.addIntervalDt, checkedI32, checkedI64, h1, h2, ↓reduceIte, Date.tryFromDays,
+      Timestamp.tryFromUsecs, hr, h3, Except.map]
+    rw [em]; unfold midnight Timestamp.new USECONDS_PER_DAY; congr 1; omega
+  · -- it is not: both paths report DateOutOfRange (whether or not the intermediate fits the machine integer)
+    have hr' : ¬ (-719162 ≤ d + k ∧ d + k ≤ 2932896) := fun h => hr ((isValidDate_iff _).2 h)
+    have h3 : ¬ isValidTimestamp (midnight d + k * 86400000000) := by rw [em, isValidTimestamp_iff]; omega
+    have eD : Date.addDays d k = .error .DateOutOfRange := by
+      unfold Date.addDays checkedI32
+      by_cases h1 : fitsI32 (d + k)
+      · simp only [h1, ↓reduceIte, Date.tryFromDays, hr]
+      · simp only [h1, ↓reduceIte]
+    have eT : Timestamp.addIntervalDt (midnight d) (k * 86400000000) = .error .DateOutOfRange := by
+      unfold Timestamp.addIntervalDt checkedI64
+      by_cases h2 : fitsI64 (midnight d + k * 86400000000)
+      · simp only [h2, ↓reduceIte, Timestamp.tryFromUsecs, h3]
+      · simp only [h2, ↓reduceIte]
+    rw [eD, eT]; rfl
+
 end SqlDt.C17
